@@ -351,6 +351,9 @@ def run(c, a):
             extra.update({"chain_obligations": len(chain), "chain_violations": nchain, "mapping_lists_tried": len(bm),
                           "mapping_lists_rejected": sum(1 for b in bm if b["rejected"]), "badmap_violations": nbm})
             extra.update({"path_obligations": len(obligs), "changedelse": n})
+            # "points the right way" holds for search-attribute keys as for names: the direction probe on the ASSEMBLED servers
+            # (request and response leg, inbound and outbound server, tcp and mux)
+            extra.update(sa_direction(c))
     denied = sum(1 for r in recs if r["status"] == "PermissionDenied")
     c.coverage.update({
         "cases": len(cases), "executed": len(recs), "denied": denied, "forwarded": sum(1 for r in recs if r["status"] == "OK"),
